@@ -62,6 +62,8 @@ def key():
 
 k = key()
 rec = dict(vcs=name, key=k, argv=argv)
+if name == "hg":
+    rec["hgencoding"] = os.environ.get("HGENCODING")
 if name == "hg" and k == "commit" and "--logfile" in argv:
     try:
         rec["logfile_bytes"] = open(argv[argv.index("--logfile") + 1], "rb").read().decode("utf-8", "surrogateescape")
